@@ -35,6 +35,22 @@ def unescapeMeasurement := unescapeWith measurementCodes
 def escapeTag := escapeWith tagCodes
 def unescapeTag := unescapeWith tagCodes
 
+/-- the four bytes of `escape.Codes` (pkg/escape): field keys are written with `escape.String`
+and read back by the field iterator with `escape.AppendUnescaped` -/
+def isCode (c : Nat) : Bool := c == comma || c == quote || c == space || c == equals
+
+/-- `escape.Bytes`: every code byte gets a backslash in front (the replacements of the four
+codes commute: none introduces a code byte) -/
+def escapeBytes : Bytes → Bytes
+  | [] => []
+  | x :: xs => if isCode x then bs :: x :: escapeBytes xs else x :: escapeBytes xs
+
+/-- `escape.AppendUnescaped(nil, s)`: one pass; a backslash followed by a code byte is dropped -/
+def appendUnescaped : Bytes → Bytes
+  | [] => []
+  | [x] => [x]
+  | x :: y :: rest => if x = bs ∧ isCode y then y :: appendUnescaped rest else x :: appendUnescaped (y :: rest)
+
 /-- `EscapeStringField`: one pass, `"` ↦ `\"`, `\` ↦ `\\` -/
 def escapeStringField : Bytes → Bytes
   | [] => []
